@@ -32,6 +32,153 @@ pub struct Scenario {
 
 pub struct C07;
 
+// ------------------------------------------------------------------------------------------
+// real-backend arm: the same restart oracle over real SQLite / LMDB files (stop between requests)
+
+#[derive(Serialize, Deserialize, Clone, Debug)]
+pub struct RealScenario {
+    /// "sqlite" | "lmdb"
+    pub backend: String,
+    pub base_ms: u64,
+    pub events: Vec<Vec<Req>>,
+    /// the node stops (storage dropped without further ado, then reopened) after these many groups
+    pub stops: Vec<usize>,
+}
+
+async fn real_listing<S: datacake_eventual_consistency::Storage>(group: &datacake_eventual_consistency::verif::KeyspaceGroup<S>, storage: &S, ks: &str) -> Result<(Listing, Listing), String> {
+    let mb = group.get_or_create_keyspace(ks).await;
+    let bytes = mb.send(datacake_eventual_consistency::verif::Serialize).await.map_err(|e| e.to_string())?;
+    let set = decode_set(&bytes)?;
+    let sl = set_listing(&set);
+    let mut live = Vec::new();
+    let mut dead = Vec::new();
+    for (k, t, tomb) in storage.iter_metadata(ks).await.map_err(|e| e.to_string())? {
+        if tomb {
+            dead.push((k, t));
+        } else {
+            live.push((k, t));
+        }
+    }
+    live.sort();
+    dead.sort();
+    Ok((sl, (live, dead)))
+}
+
+async fn real_incarnation<O: super::c17::Opener>(sc: &RealScenario, dir: &std::path::Path, boots: usize, mut next: usize, stop_at: usize, out: &mut Outcome, tr: &mut Fnv) -> Result<(std::sync::Arc<O::S>, usize), String>
+where
+    O::S: datacake_eventual_consistency::Storage,
+{
+    use datacake_eventual_consistency::verif as ecv;
+    use std::marker::PhantomData;
+    let b = O::NAME;
+    let storage = std::sync::Arc::new(O::open(dir).await?);
+    let clock = datacake_node::Clock::new(0);
+    let group = ecv::KeyspaceGroup::new(storage.clone(), clock.clone()).await;
+    group.load_states_from_storage().await.map_err(|e| format!("load_states_from_storage failed: {e}"))?;
+    if boots > 0 {
+        out.fault("node_stopped_and_restarted_on_real_files");
+        let listed = storage.get_keyspace_list().await.map_err(|e| e.to_string())?;
+        for ks in listed {
+            let (set, store) = real_listing(&group, storage.as_ref(), &ks).await?;
+            if set.0 != store.0 {
+                out.violate(format!("C07/{b}/rebuilt-live-entries-differ-from-store"), format!("after restart #{boots}: keyspace {ks}: rebuilt set live {} vs {b} rows {}", fmt_list(&set.0), fmt_list(&store.0)));
+            }
+            if set.1 != store.1 {
+                out.violate(format!("C07/{b}/rebuilt-tombstones-differ-from-store"), format!("after restart #{boots}: keyspace {ks}: rebuilt set tombstones {} vs {b} rows {}", fmt_list(&set.1), fmt_list(&store.1)));
+            }
+            tr.str(&ks).u64(set.0.len() as u64).u64(set.1.len() as u64);
+        }
+    }
+    while next < sc.events.len() && next < stop_at {
+        for (ri, r) in sc.events[next].iter().enumerate() {
+            let mb = group.get_or_create_keyspace(&r.ks).await;
+            let tag = format!("g{next}r{ri}");
+            let doc = |it: &Item| datacake_eventual_consistency::Document::new(it.id, it.ts(), format!("{tag}:{}", it.id).into_bytes());
+            let meta = |it: &Item| datacake_eventual_consistency::DocumentMetadata::new(it.id, it.ts());
+            let ok = match r.kind.as_str() {
+                "set" => mb.send(ecv::Set { source: r.source, doc: doc(&r.items[0]), ctx: None, _marker: PhantomData }).await.is_ok(),
+                "multi_set" | "batch" => mb.send(ecv::MultiSet { source: r.source, docs: r.items.iter().map(doc).collect(), ctx: None, _marker: PhantomData }).await.is_ok(),
+                "del" => mb.send(ecv::Del { source: r.source, doc: meta(&r.items[0]), _marker: PhantomData }).await.is_ok(),
+                "multi_del" => mb.send(ecv::MultiDel { source: r.source, docs: r.items.iter().map(meta).collect(), _marker: PhantomData }).await.is_ok(),
+                _ => mb.send(ecv::PurgeDeletes(PhantomData::<O::S>)).await.is_ok(),
+            };
+            if !ok {
+                out.violate(format!("C07/{b}/request-failed-on-real-backend"), format!("group {next} request {ri} ({}) failed", r.kind));
+            }
+            // C02's oracle on the real backend as well
+            let (set, store) = real_listing(&group, storage.as_ref(), &r.ks).await?;
+            if set != store {
+                out.violate(format!("C07/{b}/set-and-store-disagree"), format!("after group {next} request {ri} ({}): keyspace {}: set {} / {} vs {b} rows {} / {}", r.kind, r.ks, fmt_list(&set.0), fmt_list(&set.1), fmt_list(&store.0), fmt_list(&store.1)));
+            }
+        }
+        next += 1;
+    }
+    Ok((storage, next))
+}
+
+fn real_run<O: super::c17::Opener>(sc: &RealScenario, out: &mut Outcome, tr: &mut Fnv) -> Result<(), String>
+where
+    O::S: datacake_eventual_consistency::Storage,
+{
+    let dir = super::c17::scratch_dir();
+    let mut next = 0usize;
+    let mut boots = 0usize;
+    let mut stops: Vec<usize> = sc.stops.iter().copied().filter(|s| *s <= sc.events.len()).collect();
+    stops.sort();
+    stops.dedup();
+    let closer = tokio::runtime::Builder::new_current_thread().enable_time().build().expect("runtime");
+    loop {
+        let stop_at = stops.iter().copied().find(|s| *s > next).unwrap_or(usize::MAX);
+        // one runtime per incarnation: the stop takes every task of the node with it, the files stay
+        let rt = tokio::runtime::Builder::new_current_thread().enable_time().build().expect("runtime");
+        let res = rt.block_on(real_incarnation::<O>(sc, &dir, boots, next, stop_at, out, tr));
+        drop(rt);
+        let (storage, n) = res?;
+        next = n;
+        boots += 1;
+        let storage = std::sync::Arc::try_unwrap(storage).map_err(|_| "harness: storage still shared after the node's runtime was dropped".to_string())?;
+        closer.block_on(O::close(storage));
+        if boots > stops.len() {
+            break;
+        }
+    }
+    let _ = std::fs::remove_dir_all(&dir);
+    Ok(())
+}
+
+pub fn execute_real(sc: &RealScenario) -> Outcome {
+    let mut out = Outcome::default();
+    let mut tr = Fnv::new();
+    tr.str(&sc.backend);
+    let wall = VirtualWall::install(sc.base_ms);
+    let res = match sc.backend.as_str() {
+        "sqlite" => real_run::<super::c17::OSqlite>(sc, &mut out, &mut tr),
+        "lmdb" => real_run::<super::c17::OLmdb>(sc, &mut out, &mut tr),
+        _ => Err("unknown backend".to_string()),
+    };
+    drop(wall);
+    if let Err(e) = res {
+        if e.starts_with("harness") {
+            return Outcome::invalid(e);
+        }
+        out.violate(format!("C07/{}/restart-failed", sc.backend), e);
+    }
+    out.nontrivial = sc.events.len() >= 3 && !sc.stops.is_empty();
+    out.probe(&format!("real_backend_{}", sc.backend));
+    for g in &sc.events {
+        for r in g {
+            tr.str(&r.kind).u64(r.items.len() as u64);
+        }
+    }
+    for s in &sc.stops {
+        tr.u64(*s as u64);
+    }
+    out.trace_hash = tr.finish();
+    out.signature = tr.finish();
+    out.state_fp = tr.finish();
+    out
+}
+
 struct Phase {
     /// (ks, id, ts, tombstone) written by storage calls of acknowledged requests
     acked: Vec<Acked>,
@@ -219,7 +366,7 @@ impl Check for C07 {
         "E1 single-node engine: crash = the whole tokio runtime is dropped at the chosen instant (every task cancelled at its await point, in-flight storage call parked after a chosen durable prefix); restart = fresh runtime + KeyspaceGroup::load_states_from_storage on the surviving SimStorage"
     }
     fn rule(&self) -> &'static str {
-        "Cases: for each seeded request history (3-24 sequential set/multi_set/del/multi_del/batch/purge requests, 1-3 keyspaces, timestamps near now / hours old / future, occasional storage failure) EVERY crash point of the grid is taken: after request group g for g in 0..24, and inside mutating storage call n in 1..16 with 0, 1 or all of its writes durable (72 crash points per history); the enumeration is complete over that grid for the stated number of histories. Beyond the grid, seeded cases add a second crash after the first restart. After restart: rebuilt set (Serialize, validated) == store rows for every keyspace the store lists; the rest of the history is then replayed with the C02 oracle after every request; every write of an acknowledged request is still in the store (or superseded / purged). Non-trivial = >= 2 storage writes and >= 1 stored row. Distinct = hash of (store state at crash, storage trace, crash position)."
+        "Cases: for each seeded request history (3-24 sequential set/multi_set/del/multi_del/batch/purge requests, 1-3 keyspaces, timestamps near now / hours old / future, occasional storage failure) EVERY crash point of the grid is taken: after request group g for g in 0..24, and inside mutating storage call n in 1..16 with 0, 1 or all of its writes durable (72 crash points per history); the enumeration is complete over that grid for the stated number of histories. Beyond the grid, seeded cases add a second crash after the first restart, and one case in 24 runs a history over real SQLite / LMDB files (origin node ids up to 255 in the persisted timestamps) with the node stopped between requests and restarted on the same files. After restart: rebuilt set (Serialize, validated) == store rows for every keyspace the store lists; the rest of the history is then replayed with the C02 oracle after every request; every write of an acknowledged request is still in the store (or superseded / purged). Non-trivial = >= 2 storage writes and >= 1 stored row. Distinct = hash of (store state at crash, storage trace, crash position)."
     }
     fn assumptions(&self) -> Vec<String> {
         vec![
@@ -233,6 +380,7 @@ impl Check for C07 {
             ("KeyspaceGroup::load_states_from_storage, keyspace actors, ConsistencyService handlers, Clock", "real"),
             ("Storage", "SimStorage (harness), lives outside the runtime, parks in-flight calls"),
             ("process crash", "simulated: runtime dropped"),
+            ("SqliteStorage / LmdbStorage (real-backend arm)", "real, real files on tmpfs; stops between requests only"),
         ]
     }
     fn budget(&self, tier: Tier) -> Budget {
@@ -245,6 +393,25 @@ impl Check for C07 {
         Some(self.budget(tier).max_cases)
     }
     fn generate(&self, seed: u64, idx: u64, tier: Tier) -> Value {
+        if idx % 24 == 23 {
+            // real-backend arm: SQLite / LMDB files, stops between requests
+            let mut rng = rng_from(case_seed(seed ^ 0xBAC, idx));
+            let cfg = GenCfg {
+                keyspaces: rng.gen_range(1..=2),
+                ids: rng.gen_range(2..=5),
+                // origin ids over the whole range: persisted timestamps carry them
+                origins: *[3u8, 12, 99, 255].get(rng.gen_range(0..4)).unwrap(),
+                base_ms: rng.gen_range(1_000_000_000u64..60_000_000_000) / 4 * 4,
+                dup_ids: false,
+                allow_purge: rng.gen_bool(0.4),
+                spread_hours: rng.gen_bool(0.5),
+            };
+            let groups = rng.gen_range(3..=14);
+            let events: Vec<Vec<Req>> = gen_history(&mut rng, groups, &cfg, 0.0).into_iter().map(|g| g.into_iter().map(|mut r| { r.route = "actor".into(); r }).collect()).collect();
+            let stops: Vec<usize> = (0..rng.gen_range(1..=2)).map(|_| rng.gen_range(1..=groups)).collect();
+            let sc = RealScenario { backend: if idx % 48 == 23 { "sqlite" } else { "lmdb" }.to_string(), base_ms: cfg.base_ms, events, stops };
+            return serde_json::json!({ "real": sc });
+        }
         let hist = if tier == Tier::Quick { HISTORIES_QUICK } else { HISTORIES_THOROUGH };
         if idx < SLOTS * hist {
             let mut sc = history(seed, idx / SLOTS);
@@ -274,6 +441,12 @@ impl Check for C07 {
         serde_json::to_value(sc).unwrap()
     }
     fn execute(&self, scenario: &Value) -> Outcome {
+        if let Some(r) = scenario.get("real") {
+            return match serde_json::from_value::<RealScenario>(r.clone()) {
+                Ok(sc) => execute_real(&sc),
+                Err(e) => Outcome::invalid(format!("bad scenario: {e}")),
+            };
+        }
         let sc: Scenario = match serde_json::from_value(scenario.clone()) {
             Ok(s) => s,
             Err(e) => return Outcome::invalid(format!("bad scenario: {e}")),
@@ -281,6 +454,9 @@ impl Check for C07 {
         execute_scenario(&sc)
     }
     fn shrink(&self, sc: &Value) -> Vec<Value> {
+        if let Some(r) = sc.get("real") {
+            return shrink_groups(r).into_iter().map(|v| serde_json::json!({ "real": v })).collect();
+        }
         let mut c = Vec::new();
         if sc.get("crash2").map(|c| !c.is_null()).unwrap_or(false) {
             let mut v = sc.clone();
